@@ -25,11 +25,11 @@ def build(b, T, G, np_, shape):
     if 'ROCKS' in secs or 'ELEME' in secs:
         for k in range(nrock):
             nad = shape.get('nad', [0])[k % len(shape.get('nad', [0]))]
-            vals = b.record('rocks1', skip=('nad',), xp=xp)
-            rt = G.rocktype(['dfalt', 'rockb', 'rockc'][k], nad, vals['density'], vals['porosity'],
+            vals = masked(shape, b.record('rocks1', skip=('nad',), xp=xp))
+            rt = G.rocktype(shape.get('rock_names', ['dfalt', 'rockb', 'rockc'])[k], nad, vals['density'], vals['porosity'],
                             [vals['k1'], vals['k2'], vals['k3']], vals['conductivity'], vals['specific_heat'])
             if nad is not None and nad >= 1:
-                v1 = b.record('rocks1.1', xp=xp)
+                v1 = masked(shape, b.record('rocks1.1', xp=xp))
                 rt.__dict__.update(v1)
                 if nad >= 2:
                     rt.relative_permeability = dict(type=b.int(5), parameters=b.reals(7, 'e', 10, 3, formats=[('e', 15, 8)]))
@@ -44,7 +44,7 @@ def build(b, T, G, np_, shape):
             pat = pats[k % len(pats)]
             nm = b.name('bn%d' % k, pat, info['names'])
             info['names'].append(nm)
-            vals = b.record('blocks', skip=('nseq', 'nadd'), xp=xp, positive=('volume',))
+            vals = masked(shape, b.record('blocks', skip=('nseq', 'nadd'), xp=xp, positive=('volume',)), keep=('x', 'y', 'z'))
             centre = None
             if shape.get('centres', True) and k % 2 == 0:
                 centre = np_.array([vals['x'], vals['y'], vals['z']])
@@ -54,24 +54,61 @@ def build(b, T, G, np_, shape):
             dat.grid.add_block(blk); blocks.append(blk)
         if 'CONNE' in secs:
             for k in range(nblk - 1):
-                vals = b.record('connections', skip=('nseq', 'nad1', 'nad2', 'direction'), xp=xp)
+                vals = masked(shape, b.record('connections', skip=('nseq', 'nad1', 'nad2', 'direction'), xp=xp))
                 con = G.t2connection([blocks[k], blocks[k + 1]], b.int(5, 1, 3), [vals['distance1'], vals['distance2']],
                                      vals['area'], vals['dircos'], vals['sigma'] if k == 0 else None,
                                      nseq=b.int(5, 1) if k == 0 else None, nad1=b.int(5, 1) if k == 0 else None,
                                      nad2=b.int(5, 1) if k == 0 else None)
                 dat.grid.add_connection(con)
+    info.update(rocks=rocks, blocks=blocks)
+    add_sections(b, T, G, np_, dat, shape, secs, info)
+    info.update(gens=list(dat.generatorlist), nreal=b.n)
+    return dat, info
+
+
+def grid_info(dat):
+    """info record of an existing (e.g. re-read) data object, for add_sections"""
+    return dict(names=[blk.name for blk in dat.grid.blocklist], rocks=list(dat.grid.rocktypelist),
+                blocks=list(dat.grid.blocklist))
+
+
+def masked(shape, vals, keep=()):
+    """'None / blank in every optional field': with shape['nones'] = 'even' / 'odd' every second
+    field of a record is absent (the two masks together make every field absent once); the other
+    fields keep their symbolic values.  Fields in keep are structural (they decide how many lines
+    follow) or are handled as a group (block centre)."""
+    m = shape.get('nones')
+    if not m: return vals
+    par = 0 if m == 'even' else 1
+    out = {}
+    for i, k in enumerate(vals):
+        out[k] = None if (i % 2 == par and k not in keep) else vals[k]
+    return out
+
+
+def add_sections(b, T, G, np_, dat, shape, secs, info):
+    """data of the section kinds in secs (other than ROCKS / ELEME / CONNE) put into dat"""
+    aut = shape.get('autough2', False)
+    xp = shape.get('xp', False)
+    rocks, blocks = info['rocks'], info['blocks']
+    M = lambda vals, keep=(): masked(shape, vals, keep)
     # --- parameters
     if 'PARAM' in secs:
         p = dat.parameter
-        p.update(b.record('param1_autough2' if aut else 'param1'))
+        p.update(M(b.record('param1_autough2' if aut else 'param1')))
         p['option'] = np_.array([0] + [b.digit('mop%d' % i) for i in range(1, 25)], dtype=object)
-        v2 = b.record('param2', skip=('const_timestep',), positive=())
+        v2 = M(b.record('param2', skip=('const_timestep',), positive=()))
         p.update(v2)
         nts = shape.get('ntimesteps', 0)
         if nts:
             nlines = (nts + 7) // 8
             p['const_timestep'] = float(-nlines)
             p['timestep'] = b.reals(nts, 'e', 10, 4)
+            if shape.get('arrays'): p['timestep'] = np_.array(p['timestep'])
+        elif shape.get('const_timestep_none'):
+            # DELTEN left blank (the simulator takes 0: no time step lines follow)
+            p['const_timestep'] = None
+            p['timestep'] = []
         else:
             cts = b.real('e', 10, 3, nonneg=True)
             p['const_timestep'] = cts
@@ -80,7 +117,7 @@ def build(b, T, G, np_, shape):
         if isinstance(pb, str) and pb.startswith('block') and pb[5:].isdigit() and len(info['names']) > int(pb[5:]):
             p['print_block'] = info['names'][int(pb[5:])]
         else: p['print_block'] = None if (isinstance(pb, str) and pb.startswith('block')) else pb
-        p.update(b.record('param3'))
+        p.update(M(b.record('param3')))
         p['default_incons'] = b.reals(shape.get('nincons', 0), 'e', 20, 14)
         # absent values inside the list (never the last entry: a trailing None is not data)
         for i in shape.get('incon_nones', []): p['default_incons'][i] = None
@@ -95,34 +132,37 @@ def build(b, T, G, np_, shape):
     if 'RPCAP' in secs:
         dat.relative_permeability = dict(type=b.int(5), parameters=b.reals(7, 'e', 10, 3, formats=[('e', 15, 8)]))
         dat.capillarity = dict(type=b.int(5), parameters=b.reals(7, 'e', 10, 3, formats=[('e', 15, 8)]))
-    if 'LINEQ' in secs: dat.lineq = b.record('lineq')
+    if 'LINEQ' in secs: dat.lineq = M(b.record('lineq'))
     if 'SOLVR' in secs:
-        dat.solver = b.record('solver')
+        dat.solver = M(b.record('solver'))
         dat.solver['z_precond'] = 'Z1'; dat.solver['o_precond'] = 'O0'
     if 'MULTI' in secs:
-        dat.multi = b.record('multi_autough2' if aut else 'multi', skip=('num_components', 'num_phases'))
+        dat.multi = M(b.record('multi_autough2' if aut else 'multi', skip=('num_components', 'num_phases')))
         dat.multi['num_components'] = shape.get('ncomp', 2)
         dat.multi['num_phases'] = shape.get('nphase', 2)
         if aut: dat.multi['eos'] = 'EW'
     if 'TIMES' in secs:
         nt = shape.get('ntimes', 3)
-        dat.output_times = b.record('output_times1', skip=('num_times_specified',))
+        dat.output_times = M(b.record('output_times1', skip=('num_times_specified',)))
         dat.output_times['num_times_specified'] = nt
         dat.output_times['time'] = b.reals(nt, 'e', 10, 4)
+        if shape.get('arrays'): dat.output_times['time'] = np_.array(dat.output_times['time'])
     if 'SELEC' in secs:
         nl = shape.get('nselec_lines', 1)
-        dat.selection = dict(integer=[nl] + [b.int(5) for _ in range(15)],
+        dat.selection = dict(integer=[None if shape.get('selec_count_none') else nl] + [b.int(5) for _ in range(15)],
                              float=b.reals(shape.get('nselec', 8 * nl), 'e', 10, 3))
     if 'DIFFU' in secs:
         dat.diffusion = [b.reals(shape.get('nphase', 2), 'e', 10, 3) for _ in range(shape.get('ncomp', 2))]
     if 'MESHM' in secs:
         mk = shape.get('meshmaker', 'xyz')
         if mk == 'xyz':
-            sub1 = dict(ntype='NX', no=shape.get('nxyz', 3), **{'del': 0.0})
+            # DEL blank is DEL = 0 for the simulator: the NO increments follow
+            sub1 = dict(ntype='NX', no=shape.get('nxyz', 3), **{'del': None if (shape.get('nones') or shape.get('xyz_del_none')) else 0.0})
             sub1['deli'] = b.reals(sub1['no'], 'e', 10, 4)
             d2 = b.real('e', 10, 4, nonzero=True)
             sub2 = dict(ntype='NY', no=b.int(5, 1), **{'del': d2})
-            dat.meshmaker.append(('xyz', [b.real('e', 10, 4), sub1, sub2]))
+            deg = b.real('e', 10, 4)
+            dat.meshmaker.append(('xyz', [None if shape.get('nones') == 'even' else deg, sub1, sub2]))
         elif mk == 'rz2d':
             nr, nl = shape.get('nradii', 3), shape.get('nlayers', 3)
             dat.meshmaker.append(('rz2d', [('radii', dict(radii=b.reals(nr, 'e', 10, 4))),
@@ -131,15 +171,16 @@ def build(b, T, G, np_, shape):
                                            ('layer', dict(layer=b.reals(nl, 'e', 10, 4)))]))
         elif mk == 'minc':
             nv = shape.get('nvol', 3)
-            dat.meshmaker.append(('minc', dict(type='ONE-D', dual='     ', num_continua=b.int(3, 1), where='OUT ',
+            dual = b.name('dual', shape['dual_pattern'], []) if shape.get('dual_pattern') else '     '
+            dat.meshmaker.append(('minc', dict(type='ONE-D', dual=dual, num_continua=b.int(3, 1), where='OUT ',
                                                spacing=b.reals(7, 'e', 10, 4), vol=b.reals(nv, 'e', 10, 4))))
     # --- generators
-    gens = []
+    gens = list(dat.generatorlist)
     if 'GENER' in secs:
         for k, g in enumerate(shape.get('generators', [dict(ltab=1)])):
-            vals = b.record('generator', skip=('nseq', 'nadd', 'nads', 'ltab'), xp=xp)
+            vals = M(b.record('generator', skip=('nseq', 'nadd', 'nads', 'ltab'), xp=xp))
             lt = g.get('ltab', 1)
-            gen = T.t2generator(name=g.get('name', ' ge%2d' % (k + 1)), block=info['names'][g.get('block', 0)] if info['names'] else ' a  1',
+            gen = T.t2generator(name=g.get('name', ' ge%2d' % (len(gens) + 1)), block=info['names'][g.get('block', 0)] if info['names'] else ' a  1',
                                 nseq=b.int(5, 1) if g.get('seq') else None, nadd=b.int(5, 1) if g.get('seq') else None,
                                 nads=b.int(5, 1) if g.get('seq') else None,
                                 type=g.get('type', 'MASS'), ltab=lt, itab='1' if g.get('enthalpy') else '',
@@ -151,7 +192,7 @@ def build(b, T, G, np_, shape):
                 if g.get('enthalpy'): gen.enthalpy = b.reals(abs(lt), 'e', 14, 7, formats=fm)
             dat.add_generator(gen); gens.append(gen)
     if 'SHORT' in secs:
-        dat.short_output = dict(frequency=b.int(2, 1))
+        dat.short_output = dict(frequency=b.int(2, shape.get('short_freq_lo', 1)))   # 0 is printed as blank
         if blocks: dat.short_output['block'] = [blocks[0]]
         if dat.grid.connectionlist: dat.short_output['connection'] = [dat.grid.connectionlist[0]]
         if gens: dat.short_output['generator'] = [gens[0]]
@@ -159,15 +200,16 @@ def build(b, T, G, np_, shape):
     if 'COFT' in secs: dat.history_connection = [dat.grid.connectionlist[0]] if dat.grid.connectionlist else [(' a  1', ' b  2')]
     if 'GOFT' in secs: dat.history_generator = [blocks[0]] if blocks else [' a  1']
     if 'INCON' in secs:
-        for k, blk in enumerate(blocks):
+        # without blocks (mesh made by MESHMAKER, or held in a MESH file that is not given): initial
+        # conditions by block name
+        for k, nm in enumerate([blk.name for blk in blocks] if blocks else [' a  1', ' b  2']):
             por = b.real('e', 15, 9) if k % 2 == 0 else None
             vs = b.reals(shape.get('nincon_vars', 2), 'e', 20, 14)
-            dat.incon[blk.name] = [por, vs] if k != 1 else [por, vs, b.int(5, 1), b.int(5, 1)]
+            dat.incon[nm] = [por, vs] if k != 1 else [por, vs, b.int(5, 1), b.int(5, 1)]
     if 'INDOM' in secs:
         for rt in rocks[:2]:
             dat.indom[rt.name] = b.reals(shape.get('nindom', 3), 'e', 20, 13)
-    info.update(rocks=rocks, blocks=blocks, gens=gens, nreal=b.n)
-    return dat, info
+        if not rocks: dat.indom['dfalt'] = b.reals(shape.get('nindom', 3), 'e', 20, 13)
 
 
 # ---------------------------------------------------------------------------
@@ -175,20 +217,23 @@ def build(b, T, G, np_, shape):
 
 def compare(cmp, a, b, shape, exact=False, where=''):
     aut = shape.get('autough2', False)
-    R = lambda x, y, w: cmp.real(x, y, where + w, exact)
+    # a field left None whose default in the object is a number (0.0) is the default: that is what is read back
+    R = lambda x, y, w, dflt=None: cmp.real(dflt if (x is None and dflt is not None) else x, y, where + w, exact)
     cmp.ob(list(a._sections) == list(b._sections), where + 'sections: same sections in the same order %r vs %r' % (a._sections, b._sections))
+    for s in sorted(set(a._sections) ^ set(b._sections)):
+        cmp.ob(False, where + 'sections %s: %s' % (s, 'lost' if s in a._sections else 'added'))
     cmp.text(a.title, b.title, where + 'title')
     cmp.text(a.simulator, b.simulator, where + 'simulator')
     # rocks
     cmp.ob(len(a.grid.rocktypelist) == len(b.grid.rocktypelist), where + 'rocks: same number of rock types')
     for ra, rb in zip(a.grid.rocktypelist, b.grid.rocktypelist):
         w = where + 'rock %s ' % ra.name
-        cmp.text(ra.name, rb.name, w + 'name')
+        cmp.text(ra.name, rb.name, w + 'name', strip='both')   # a name shorter than its field is padded
         cmp.int(ra.nad, rb.nad, w + 'nad')
         for f in ('density', 'porosity', 'conductivity', 'specific_heat'): R(getattr(ra, f), getattr(rb, f), w + f)
         cmp.reals(ra.permeability, rb.permeability, w + 'permeability', exact)
         if ra.nad is not None and ra.nad >= 1:
-            for f in ('compressibility', 'expansivity', 'dry_conductivity', 'tortuosity'): R(getattr(ra, f), getattr(rb, f), w + f)
+            for f in ('compressibility', 'expansivity', 'dry_conductivity', 'tortuosity'): R(ra.__dict__.get(f), rb.__dict__.get(f), w + f, 0.0)
             for f in ('klinkenberg', 'xkd3', 'xkd4'): R(ra.__dict__.get(f), rb.__dict__.get(f), w + f)
             if ra.nad >= 2:
                 for d in ('relative_permeability', 'capillarity'):
@@ -200,7 +245,7 @@ def compare(cmp, a, b, shape, exact=False, where=''):
     for k, (ba, bb) in enumerate(zip(a.grid.blocklist, b.grid.blocklist)):
         w = where + 'block %d ' % k
         cmp.text(ba.name, bb.name, w + 'name', name=not exact, strip=False)
-        cmp.text(ba.rocktype.name, bb.rocktype.name, w + 'rocktype')
+        cmp.text(ba.rocktype.name, bb.rocktype.name, w + 'rocktype', strip='both')
         R(ba.volume, bb.volume, w + 'volume'); R(ba.ahtx, bb.ahtx, w + 'ahtx'); R(ba.pmx, bb.pmx, w + 'pmx')
         cmp.int(ba.nseq, bb.nseq, w + 'nseq', True); cmp.int(ba.nadd, bb.nadd, w + 'nadd', True)
         if ba.centre is None or bb.centre is None: cmp.ob(ba.centre is None and bb.centre is None, w + 'centre: absent stays absent')
@@ -223,14 +268,14 @@ def compare(cmp, a, b, shape, exact=False, where=''):
         for i in range(1, len(oa)): cmp.int(oa[i], ob_[i], where + 'param option[%d]' % i)
     for f in ('texp', 'be', 'tstart', 'tstop', 'const_timestep', 'max_timestep', 'gravity', 'timestep_reduction', 'scale',
               'relative_error', 'absolute_error', 'pivot', 'upstream_weight', 'newton_weight', 'derivative_increment') + (('diff0',) if aut else ()):
-        R(pa.get(f), pb.get(f), where + 'param ' + f)
+        R(pa.get(f), pb.get(f), where + 'param ' + f, 0.0 if f in ('tstart', 'const_timestep', 'gravity') else None)
     if pa.get('print_block') is None or pb.get('print_block') is None:
         cmp.ob(pa.get('print_block') is None and pb.get('print_block') is None, where + 'param print_block: absent stays absent')
     else: cmp.text(pa['print_block'], pb['print_block'], where + 'param print_block', name=not exact, strip=False)
     if len(pa['timestep']) == 0:
         # model built from defaults: with a non-negative constant time step the reader
         # fills the list with that one value (derived data)
-        cmp.reals([pa['const_timestep']], pb['timestep'], where + 'param timestep (derived from const_timestep)', exact)
+        cmp.reals([0.0 if pa['const_timestep'] is None else pa['const_timestep']], pb['timestep'], where + 'param timestep (derived from const_timestep)', exact)
     else: cmp.reals(pa['timestep'], pb['timestep'], where + 'param timestep', exact)
     cmp.reals(pa['default_incons'], pb['default_incons'], where + 'param default_incons', exact)
     ma, mb = list(a.more_option), list(b.more_option)
@@ -309,7 +354,7 @@ def compare(cmp, a, b, shape, exact=False, where=''):
     # short output / history
     cmp.ob(bool(a.short_output) == bool(b.short_output), where + 'short output present')
     if a.short_output and b.short_output:
-        cmp.int(a.short_output.get('frequency'), b.short_output.get('frequency'), where + 'short frequency')
+        cmp.int(a.short_output.get('frequency'), b.short_output.get('frequency'), where + 'short frequency', True)   # 0 is printed as blank
         for key, lst_a, lst_b in (('block', a.grid.blocklist, b.grid.blocklist), ('connection', a.grid.connectionlist, b.grid.connectionlist),
                                   ('generator', a.generatorlist, b.generatorlist)):
             xa, xb = a.short_output.get(key), b.short_output.get(key)
@@ -331,20 +376,110 @@ def compare(cmp, a, b, shape, exact=False, where=''):
                 cmp.ob(y in b.grid.connectionlist and a.grid.connectionlist.index(x) == b.grid.connectionlist.index(y), where + '%s: same connection' % attr)
     # incons
     cmp.ob(len(a.incon) == len(b.incon), where + 'incon: same number of blocks')
-    for k, ba in enumerate(a.grid.blocklist):
-        if k >= len(b.grid.blocklist): break
-        ia = a.incon.get(ba.name) if a.incon else None
-        bbname = b.grid.blocklist[k].name
-        ib = b.incon.get(bbname) if b.incon else None
+    if a.grid.blocklist: pairs = [(ba.name, b.grid.blocklist[k].name) for k, ba in enumerate(a.grid.blocklist) if k < len(b.grid.blocklist)]
+    else:
+        # no blocks: entries by name, in the order held
+        pairs = list(zip(list(a.incon), list(b.incon)))
+        for na, nb in pairs: cmp.text(na, nb, where + 'incon block name', name=not exact, strip=False)
+    for k, (na, nb) in enumerate(pairs):
+        ia = a.incon.get(na) if a.incon else None
+        ib = b.incon.get(nb) if b.incon else None
         if ia is None or ib is None:
             cmp.ob(ia is None and ib is None, where + 'incon block %d present in both' % k); continue
         R(ia[0], ib[0], where + 'incon %d porosity' % k); cmp.reals(ia[1], ib[1], where + 'incon %d variables' % k, exact)
         cmp.ob(len(ia) == len(ib), where + 'incon %d: sequence numbers present in both' % k)
         if len(ia) == len(ib) and len(ia) >= 4:
             cmp.int(ia[2], ib[2], where + 'incon %d nseq' % k); cmp.int(ia[3], ib[3], where + 'incon %d nadd' % k)
-    cmp.ob(len(a.indom) == len(b.indom) and list(a.indom) == list(b.indom), where + 'indom: same rock types')
-    for k in a.indom:
-        if k in b.indom: cmp.reals(a.indom[k], b.indom[k], where + 'indom %s' % k, exact)
+    cmp.ob(len(a.indom) == len(b.indom), where + 'indom: same number of rock types')
+    for i, (ka, kb) in enumerate(zip(list(a.indom), list(b.indom))):
+        cmp.text(ka, kb, where + 'indom %d rock name' % i, strip='both')
+        cmp.reals(a.indom[ka], b.indom[kb], where + 'indom %d' % i, exact)
     cmp.ob(a.end_keyword == b.end_keyword, where + 'end keyword')
 
 
+# ---------------------------------------------------------------------------
+# records of an independent Fortran-style writer (D exponents, E/F edit descriptors, blanks for
+# fields not given).  dig(name, n, first_nonzero) gives n digit cells, dig.sign(name) a sign cell
+# (blank or '-'): symbolic cells in the check, characters in the replay.
+
+def _freal(dig, out, name, w, nd, exp, signed=False, letter='D'):
+    m = dig(name, nd, True)
+    cells = ['0', '.'] + list(m) + [letter] + list('%+03d' % exp)
+    s = None
+    if signed:
+        s = dig.sign(name + '.s'); cells = [s] + cells
+    assert len(cells) <= w, (name, w)
+    out[name] = dict(sign=s, digits=list(m), exp=exp - nd)
+    return [' '] * (w - len(cells)) + cells
+
+def _ffix(dig, out, name, w, nd, signed=True):
+    """Fw.d-style field 0.ddddddd"""
+    m = dig(name, nd, False)
+    s = dig.sign(name + '.s') if signed else ' '
+    cells = [s, '0', '.'] + list(m)
+    out[name] = dict(sign=s if signed else None, digits=list(m), exp=-nd)
+    return [' '] * (w - len(cells)) + cells
+
+def _fint(dig, out, name, w, nd):
+    m = dig(name, nd, True)
+    out[name] = dict(sign=None, digits=list(m), exp=0, integer=True)
+    return [' '] * (w - nd) + list(m)
+
+def fortran_files(dig, shape):
+    """(files, values, getters): lines of a small model as a Fortran program would print them (main
+    file 'f.dat', and 'FMESH' when shape['meshfile']); values[name] = digits / sign / exponent of each
+    number printed; getters[name](dat) = the field of a data object that has to hold it."""
+    V, Gt = {}, {}
+    blank = lambda n: [' '] * n
+    L = lambda *parts: [c for p in parts for c in (list(p) if isinstance(p, str) else p)] + ['\n']
+    main, mesh = [], []
+    main.append(L('fortran-style model'))
+    main.append(L('ROCKS'))
+    main.append(L('SAND ', blank(5), _freal(dig, V, 'density', 10, 4, 4), _freal(dig, V, 'porosity', 10, 4, 0),
+                  _freal(dig, V, 'k1', 10, 4, -12), _freal(dig, V, 'k2', 10, 4, -12), _freal(dig, V, 'k3', 10, 4, -13),
+                  _freal(dig, V, 'conductivity', 10, 4, 1), _freal(dig, V, 'specific_heat', 10, 4, 4, letter='E')))
+    main.append(L(''))
+    rk = lambda d: d.grid.rocktypelist[0]
+    for f in ('density', 'porosity', 'conductivity', 'specific_heat'): Gt[f] = (lambda f: lambda d: getattr(rk(d), f))(f)
+    for i in range(3): Gt['k%d' % (i + 1)] = (lambda i: lambda d: rk(d).permeability[i])(i)
+    main.append(L('PARAM'))
+    main.append(L(blank(2), ' 2', _fint(dig, V, 'max_timesteps', 4, 2), blank(4), _fint(dig, V, 'print_interval', 4, 2), '1' + '0' * 23))
+    main.append(L(blank(10), _freal(dig, V, 'tstop', 10, 3, 10), _freal(dig, V, 'const_timestep', 10, 3, 4), blank(10), blank(10),
+                  _freal(dig, V, 'gravity', 10, 4, 1)))
+    main.append(L(_freal(dig, V, 'relative_error', 10, 4, -4)))
+    main.append(L(_freal(dig, V, 'incon0', 20, 6, 6), [' '] * 0, _freal(dig, V, 'incon1', 20, 6, 2)))
+    for f in ('max_timesteps', 'print_interval', 'tstop', 'const_timestep', 'gravity', 'relative_error'):
+        Gt[f] = (lambda f: lambda d: d.parameter[f])(f)
+    for i in range(2): Gt['incon%d' % i] = (lambda i: lambda d: d.parameter['default_incons'][i])(i)
+    main.append(L(''))
+    if shape.get('momop'):
+        # MOMOP record: 21 option digits, any of them (also all of them) zero
+        main.append(L('MOMOP'))
+        main.append(L(dig('momop', 21, False)))
+    if shape.get('no_mesh'):
+        # no ELEME / CONNE at all (mesh from MESHMAKER or from a MESH file given to the simulator)
+        main.append(L('ENDCY'))
+        return {'f.dat': main}, V, Gt
+    tgt = mesh if shape.get('meshfile') else main
+    tgt.append(L('ELEME'))
+    names = ['AA  1', 'AB1 7']
+    for k, nm in enumerate(names):
+        p = 'blk%d.' % k
+        tgt.append(L(nm, blank(10), 'SAND ', _freal(dig, V, p + 'volume', 10, 4, 4), blank(10) if k else _freal(dig, V, p + 'ahtx', 10, 4, 2), blank(10),
+                     _freal(dig, V, p + 'x', 10, 3, 2), _freal(dig, V, p + 'y', 10, 3, 1), _freal(dig, V, p + 'z', 10, 3, 3, k == 0)))
+        Gt[p + 'volume'] = (lambda k: lambda d: d.grid.blocklist[k].volume)(k)
+        if not k: Gt[p + 'ahtx'] = lambda d: d.grid.blocklist[0].ahtx
+        for i, ax in enumerate('xyz'): Gt[p + ax] = (lambda k, i: lambda d: d.grid.blocklist[k].centre[i])(k, i)
+    tgt.append(L(''))
+    tgt.append(L('CONNE'))
+    tgt.append(L(names[0], names[1], blank(15), _fint(dig, V, 'con.direction', 5, 1), _freal(dig, V, 'con.d1', 10, 4, 1), _freal(dig, V, 'con.d2', 10, 4, 2),
+                 _freal(dig, V, 'con.area', 10, 4, 3), _ffix(dig, V, 'con.dircos', 10, 7)))
+    tgt.append(L(''))
+    cn = lambda d: d.grid.connectionlist[0]
+    Gt['con.direction'] = lambda d: cn(d).direction
+    Gt['con.d1'] = lambda d: cn(d).distance[0]; Gt['con.d2'] = lambda d: cn(d).distance[1]
+    Gt['con.area'] = lambda d: cn(d).area; Gt['con.dircos'] = lambda d: cn(d).dircos
+    main.append(L('ENDCY'))
+    files = {'f.dat': main}
+    if shape.get('meshfile'): files['FMESH'] = mesh
+    return files, V, Gt
